@@ -511,3 +511,70 @@ Example ex_mp_intersects :
 Proof. vm_compute. reflexivity. Qed.
 Example ex_mp_bounds : point_array ex_mp (-5, -5, 5, 5)%Z None = Some [true; false; false].
 Proof. vm_compute. reflexivity. Qed.
+
+(* ---- (a) EMPTY (not missing) points against polygons, over the binary64 model ----
+   A point that is present but has no finite coordinate -- every mixture of NaN, +inf,
+   -inf in its two coordinates, e.g. (-inf, NaN) -- is inert like a missing one: its
+   bounds are NaN (C17_bounds_nan_point, [inert_pt]) and it is inside no polygon.  The
+   integer models of C02 do not see such points ([finite_vals] answers None: outside the
+   model); the statement is therefore over Model/FloatKernels.v, the binary64
+   transcription of point_intersects_polygon that harness/cfloat_util.py compares bit
+   for bit with the real kernel on arbitrary float64 inputs, all nine mixtures included.
+   [FloatExact.fnonfinite v] := v is a NaN, +inf or -inf (= np.isfinite(v) is False,
+   both directions: C17_nonfinite_iff).  No hypothesis on the polygon's buffers.
+   Required without Import: no short name of those files is used above. *)
+From SP Require Model.FloatKernels Proofs.FloatExact.
+
+Theorem C17_empty_point_in_no_polygon :
+  forall (x y : PrimFloat.float) (values : list PrimFloat.float) (offs : list nat),
+  FloatExact.fnonfinite x -> FloatExact.fnonfinite y ->
+  FloatKernels.fpoint_intersects_polygon x y values offs = false.
+Proof. exact FloatExact.empty_point_in_no_polygon. Qed.
+Print Assumptions C17_empty_point_in_no_polygon.
+
+Theorem C17_nonfinite_iff : forall v : PrimFloat.float,
+  FloatExact.fnonfinite v <-> FloatKernels.fisfinite v = false.
+Proof.
+  exact (fun v => conj (FloatExact.fnonfinite_not_isfinite v) (FloatExact.not_isfinite_fnonfinite v)).
+Qed.
+Print Assumptions C17_nonfinite_iff.
+
+(* (b) a point with at least one finite coordinate is not touched by that guard: it is
+   answered by its winding number, as before *)
+Theorem C17_nonempty_point_winding :
+  forall (x y : PrimFloat.float) (values : list PrimFloat.float) (offs : list nat),
+  FloatKernels.fisfinite x = true \/ FloatKernels.fisfinite y = true ->
+  FloatKernels.fpoint_intersects_polygon x y values offs =
+  negb (FloatKernels.fwinding_number x y values offs =? 0)%Z.
+Proof. exact FloatExact.nonempty_point_winding. Qed.
+Print Assumptions C17_nonempty_point_winding.
+
+(* non-vacuity: the triangle (0,0) (2,1) (1,3) of the repaired defect, evaluated by the
+   Coq kernel on binary64.  All nine mixtures answer false ... *)
+Definition ex_tri : list PrimFloat.float :=
+  map FloatKernels.Z2F [0; 0; 2; 1; 1; 3; 0; 0]%Z.
+Example ex_empty_point_neg_inf_nan :
+  FloatKernels.fpoint_intersects_polygon PrimFloat.neg_infinity PrimFloat.nan ex_tri [0; 8] = false.
+Proof. vm_compute; reflexivity. Qed.
+Example ex_empty_points_all_mixtures :
+  let nf := [PrimFloat.nan; PrimFloat.infinity; PrimFloat.neg_infinity] in
+  map (fun x => map (fun y => FloatKernels.fpoint_intersects_polygon x y ex_tri [0; 8]) nf) nf
+  = [[false; false; false]; [false; false; false]; [false; false; false]].
+Proof. vm_compute; reflexivity. Qed.
+(* ... although the winding number the loop computes for (-inf, NaN) is not zero (every
+   comparison with NaN is False, so each non-horizontal edge counts): without the guard
+   the kernel answered True, which is the defect repaired in /repo (c066c32) *)
+Example ex_empty_point_winding_nonzero :
+  FloatKernels.fwinding_number PrimFloat.neg_infinity PrimFloat.nan ex_tri [0; 8] = 1%Z.
+Proof. vm_compute; reflexivity. Qed.
+(* a half-finite point is not empty and is decided by the loop: (1, 1) inside, (+inf, 1)
+   and (-inf, 1) outside; RECORDED: (1, NaN) is answered True (every comparison with NaN
+   is False, so no edge is skipped for lying above or below the point, and x = 1 is left
+   of / on the two edges it is tested against) -- the real kernel answers the same; C17
+   only speaks about points without ANY finite coordinate *)
+Example ex_half_finite_points :
+  map (fun p => FloatKernels.fpoint_intersects_polygon (fst p) (snd p) ex_tri [0; 8])
+      [(FloatKernels.Z2F 1, FloatKernels.Z2F 1); (PrimFloat.infinity, FloatKernels.Z2F 1);
+       (FloatKernels.Z2F 1, PrimFloat.nan); (PrimFloat.neg_infinity, FloatKernels.Z2F 1)]
+  = [true; false; true; false].
+Proof. vm_compute; reflexivity. Qed.
